@@ -494,7 +494,7 @@ def gen_namespace(rng, nsname, thorough, deps, want_blocks=True, main=True, gobj
                     # (get_x, is_x, and plain x for read-only ones): which one wins is decided by
                     # their weights, not by the order in which they are met
                     cands = ['get_' + un, 'is_' + un] + ([un] if not fl & 2 else [])
-                    for mname in rng.sample(cands, rng.randint(0, len(cands))):
+                    for mname in rng.sample(cands, rng.choice([0, 1, 2, 2, len(cands)])):
                         D({'k': 'function', 'name': '%s_%s_%s' % (p, sc, mname), 'ret': ['named', 'gboolean'],
                            'params': [['self', ['ptr', ['named', P + cl]]]]}, rng.choice(apis))
                     if fl & 2 and rng.random() < 0.6:
@@ -648,7 +648,7 @@ def gen_job(rng, thorough):
             a['_records'] = a['_records'] + ['-shared:' + shared]
         c = gen_namespace(rng, 'Dpc', False, [a, b], want_blocks=False, main=False)
         deps = [c] if rng.random() < 0.5 else [c, b, a]
-    gobject = rng.random() < 0.45
+    gobject = rng.random() < 0.55
     main = gen_namespace(rng, rng.choice(['Vfa', 'Qx', 'Mylib']), thorough, deps, gobject=gobject)
     main['shape'] = shape
     main['gobject'] = gobject
